@@ -1,6 +1,6 @@
 (* C09 — the computed cover is a minimum-cardinality cover by prime boxes.
-   Statements only; proofs in theories/L5Cover/*Proofs.v and
-   MinCoverBounded*.v.
+   Statements only; proofs in theories/L5Cover/*Proofs.v, CyclicCoreOpt.v,
+   MinCoverFull.v, MinCoverRefuted.v and MinCoverBounded*.v.
 
    Layers:
    (1) property-level definitions (Boxes.v): implicant, prime = maximal
@@ -8,16 +8,22 @@
    (2) a VERIFIED reference and checker, sound and complete for (1) on every
        finite instance; the check runs the checker inside Coq on the cover
        returned by the real cover.minimize;
-   (3) the executable model of cover.minimize (MinCover.v): soundness for all
-       instances and all pick functions; minimality on the finite domains of
-       the property's quantifier by computation ([_bounded]); minimality for
-       all instances is stated as [C09_full] and NOT proved. *)
+   (3) the executable model of cover.minimize (MinCover.v, the code as
+       repaired by fixes/F13.patch and fixes/F16.patch): [C09_full], for ALL
+       instances and ALL pick functions a returned cover is a minimum cover
+       by primes (cyclic-core reduction loses no optimal cover
+       [C09_cyclic_core_preserves_minimum], exactness of the branch and bound
+       [C09_branch_and_bound_invariants]); the same on the finite domains of
+       the property's quantifier by computation ([_bounded], kept as
+       independent evidence); the unrepaired leaf of _traverse is refuted
+       ([C09_refuted_unrepaired_leaf], finding F16). *)
 From Coq Require Import List ZArith NArith Bool.
 Import ListNotations.
 From Omega Require Import L5Cover.Boxes L5Cover.BoxesProofs L5Cover.MinCover
   L5Cover.MinCoverProofs L5Cover.MinCoverBounded L5Cover.MinCoverBounded3L
   L5Cover.MinCoverBounded4 L5Cover.BoundsProofs L5Cover.FloorLit
-  L5Cover.FloorLitProofs L5Cover.MinCoverOld L5Cover.MinCoverRefuted.
+  L5Cover.FloorLitProofs L5Cover.MinCoverOld L5Cover.MinCoverRefuted
+  L5Cover.CyclicCoreOpt L5Cover.MinCoverFull.
 Open Scope Z_scope.
 
 (* ---- (1) the order used by the code is inclusion of boxes *)
@@ -70,8 +76,9 @@ Example C09_minimize_returns :
             /\ length K = 3%nat.
 Proof. eexists. split; vm_compute; reflexivity. Qed.
 
-(* minimality on the finite domains of the property's quantifier; truth
-   tables are bit masks ([fun_of_mask]) *)
+(* minimality on the finite domains of the property's quantifier, by
+   computation (independent of C09_full; these also show that the model
+   RETURNS a cover there); truth tables are bit masks ([fun_of_mask]) *)
 Theorem C09_bounded_3 :
   forall fm cm, (fm < 256)%N -> (cm < 256)%N ->
   exists K, minimize rs3 pick_first (fun_of_mask fm) (fun_of_mask cm) = Some K /\
@@ -164,7 +171,7 @@ Example C09_floor_formula_instance :
           (params rs3) = true.
 Proof. vm_compute. reflexivity. Qed.
 
-(* two ingredients of exactness, for all instances and picks: the greedy
+(* two ingredients of C09_full, for all instances and picks: the greedy
    independent set gives a valid lower bound and the greedy cover a valid
    upper bound on the size of covers by primes *)
 Theorem C09_partial_lower_bound : forall rs pick f care K,
@@ -180,13 +187,66 @@ Theorem C09_partial_upper_bound : forall rs pick f care c0 fuel,
   prime_cover rs f care c0.
 Proof. exact upper_bound_valid. Qed.
 
-(* the unbounded statement: NOT proved (Coudert's reduction theorems and the
-   exactness of branch and bound; cf. spec/mincover/*.tla in the repository) *)
-Definition C09_full : Prop :=
+(* ---- (3') the unbounded statement, all instances, all pick functions *)
+(* the cyclic-core reduction (maximal ceilings, essential elements, maximal
+   floors, iterated) loses no optimal cover: every cover C of X by elements
+   of Y yields a cover C' of the core by elements of the core with
+   |essential| + |C'| <= |C|; with [cyclic_core_sound] (a cover of the core
+   plus the essentials covers X) the reduction preserves the minimum
+   (Coudert 1994; spec/mincover/CyclicCore.tla, StrongReduction.tla) *)
+Theorem C09_cyclic_core_preserves_minimum : forall rs X Y Xc Yc Ec,
+  cyclic_core rs X Y = Some (Xc, Yc, Ec) ->
+  below_top rs X -> above_bot rs Y -> antichain Y ->
+  (forall C, incl Ec C -> cov C Xc -> cov C X) /\
+  sub Yc Y /\ sub Ec Y /\
+  (forall C, incl C Y -> cov C X ->
+     exists C', incl C' Yc /\ cov C' Xc /\ (length Ec + length C' <= length C)%nat).
+Proof.
+  intros rs X Y Xc Yc Ec H HX HY HA.
+  destruct (cyclic_core_sound rs _ _ _ _ _ H HX) as [_ S].
+  destruct (cyclic_core_opt rs _ _ _ _ _ H HX HY HA) as [_ [_ [_ [A [B C]]]]].
+  split; [exact S|]. split; [exact A|]. split; [exact B | exact C].
+Qed.
+
+(* exactness of the branch and bound _traverse/_branch: the returned lower
+   bound is valid, a returned cover costs at most the new upper bound, the
+   upper bound never increases, after the call it is at most path cost + the
+   size of ANY cover of the node (pruning loses nothing), and it is unchanged
+   when nothing is returned *)
+Theorem C09_branch_and_bound_invariants : forall rs pick,
+  (forall s b, pick s = Some b -> In b s) ->
+  forall fuel X Y pc ub r lb ub',
+  traverse rs pick fuel X Y pc ub = Some (r, lb, ub') ->
+  below_top rs X -> above_bot rs Y -> antichain Y ->
+  (forall C, incl C Y -> cov C X -> (lb <= length C)%nat) /\
+  (forall Cr, r = Some Cr -> sub Cr Y /\ (pc + length Cr <= ub')%nat) /\
+  (ub' <= ub)%nat /\
+  (forall C, incl C Y -> cov C X -> (ub' <= pc + length C)%nat) /\
+  (r = None -> ub' = ub).
+Proof.
+  intros rs pick Hp fuel X Y pc ub r lb ub' H HX HY HA.
+  exact (traverse_inv rs pick Hp fuel X Y pc ub (r, lb, ub') H HX HY HA).
+Qed.
+
+(* non-vacuity: the covering problem of an instance satisfies the
+   hypotheses (X below top, Y = primes above bottom and an antichain) *)
+Example C09_instance_hypotheses : forall rs f care,
+  below_top rs (embed rs f) /\ above_bot rs (primes rs f care) /\
+  antichain (primes rs f care).
+Proof.
+  intros. split; [apply embed_below_top|].
+  split; [apply primes_above_bot | apply primes_antichain].
+Qed.
+
+(* C09: for every instance and every pick function, a cover returned by the
+   model of cover.minimize is a duplicate-free minimum-cardinality cover of f
+   by primes of f \/ ~care *)
+Theorem C09_full :
   forall rs pick f care K,
     (forall s b, pick s = Some b -> In b s) ->
     minimize rs pick f care = Some K ->
     min_prime_cover rs f care K.
+Proof. exact minimize_min. Qed.
 
 Print Assumptions C09_order_is_inclusion.
 Print Assumptions C09_checker_correct.
@@ -204,4 +264,7 @@ Print Assumptions C09_bounded_4.
 Print Assumptions C09_bounded_grid.
 Print Assumptions C09_bounded_grid_pick_last.
 Print Assumptions C09_refuted_unrepaired_leaf.
+Print Assumptions C09_cyclic_core_preserves_minimum.
+Print Assumptions C09_branch_and_bound_invariants.
+Print Assumptions C09_full.
 Print Assumptions C09_refuted_unrepaired_leaf_full.
